@@ -102,20 +102,33 @@ def generate(r, tier, prop):
                 ms["post"] = [_cspec(r, forms) for _ in range(r.randint(0, 2))]
                 if ms["post"] and r.random() < 0.4:
                     ms["snaps"] = [{"name": "s_%s_%s_%d" % (name, m, k)} for k in range(r.randint(1, 2))]
+                if kind in ("method", "static", "class") and (ms["pre"] or ms["post"]) and r.random() < 0.2:
+                    ms["wraps"] = True  # a foreign functools.wraps decorator above the contract decorators
                 info["own"][m] = {"pre": ms["pre"], "kind": kind, "snaps": [s["name"] for s in ms.get("snaps", [])], "post": ms["post"]}
                 spec["methods"].append(ms)
             if bases and r.random() < 0.15:
                 # re-export of a base's function object in the subclass namespace
                 b = bases[0]
-                cands = [m for m in classes[b]["own"] if classes[b]["own"][m]["kind"] in ("method", "prop") and m not in info["own"]]
+                cands = [m for m in classes[b]["own"] if classes[b]["own"][m]["kind"] in ("method", "prop", "static") and m not in info["own"]]
                 if cands:
                     m = r.choice(cands)
                     if not classes[b]["own"][m]["snaps"]:
                         spec["methods"].append({"name": m, "kind": "alias", "of": "%s.%s" % (b, m)})
+            if bases and r.random() < 0.15:
+                # re-export of a base's method under the name of ANOTHER member that the bases also provide
+                b = bases[0]
+                meths = sorted(m for m in classes[b]["own"] if classes[b]["own"][m]["kind"] == "method" and not classes[b]["own"][m]["snaps"])
+                if len(meths) >= 2:
+                    src, dst = r.sample(meths, 2)
+                    if dst not in info["own"] and not any(x["name"] == dst for x in spec["methods"]):
+                        spec["methods"].append({"name": dst, "kind": "alias", "of": "%s.%s" % (b, src)})
             for k in range(r.choice(inv_counts)):
                 inv = {"check_on": r.choice(inv_mix)}
                 inv.update(_cspec(r, forms))
                 spec["invs"].append(inv)
+            if classes and len(classes) > 1 and r.random() < 0.12:
+                # a second, distinct class object with the Python name of an earlier one (class factory, re-executed class statement)
+                spec["pyname"] = r.choice(sorted(c for c in classes if c != name))
             steps.append({"op": "class", "spec": spec})
             continue
         if x < 0.92:
@@ -143,7 +156,23 @@ def generate(r, tier, prop):
             spec = {"name": "g%d" % i, "pre": [], "post": [], "snaps": [{}], "force_snaps": True}
             steps.append({"op": "bad", "kind": "snap_no_post", "spec": spec, "expect": "ValueError"})
             continue
-        # append through the documented helper
+        # decorating a member of an already created class (K.m = require(...)(K.m)) or appending through the documented helper
+        if classes and r.random() < 0.4:
+            late = []
+            for c in sorted(classes):
+                for m, mi in sorted(classes[c]["own"].items()):
+                    if mi["kind"] == "method":
+                        late.append((c, m))
+            if late:
+                c, m = r.choice(late)
+                role = r.choice(["pre", "post"])
+                # a precondition can only be added where it does not weaken illegally: own or inherited preconditions exist, or nobody above has the member
+                base_has = [b for b in classes[c]["bases"] if has_member(b, m)]
+                if role == "post" or not base_has or eff_pre(c, m):
+                    steps.append({"op": "late", "unit": "%s.%s" % (c, m), "role": role})
+                    if role == "pre":
+                        classes[c]["own"][m]["pre"] = list(classes[c]["own"][m]["pre"]) + [{}]
+                    continue
         cands = []
         for f in funcs:
             if f["pre"] or f["post"]:
@@ -283,7 +312,8 @@ def execute(scn, want):
                         violations.append(
                             {
                                 "rule": "C18.R1",
-                                "classifier": "class-announced-%d-times%s" % (len(announced), "" if not announced or announced[0] is cls else "-wrong-object"),
+                                "classifier": "class-announced-%d-times%s%s"
+                                % (len(announced), "" if not announced or announced[0] is cls else "-wrong-object", ":python-name-shared-with-earlier-class" if step["spec"].get("pyname") else ""),
                                 "detail": {"step": si, "class": name, "announced": [getattr(a, "__name__", str(a)) for a in announced]},
                             }
                         )
@@ -299,7 +329,7 @@ def execute(scn, want):
             changed = []
             rebase = []
             allowed = set()
-            if op == "append" and exc is None:
+            if op in ("append", "late") and exc is None:
                 unit = step["unit"]
                 root = unit.split(".")[0]
                 allowed.add(root)
@@ -394,7 +424,7 @@ def execute(scn, want):
                         )
                     shapes.add(common.h64((want, "manual", len(manual) > 4, any(x[2][0] == "viol" for x in manual))))
             # ---------------- C18.R3: a contract appended through the documented helper is live
-            if want == "C18" and op == "append" and exc is None:
+            if want == "C18" and op in ("append", "late") and exc is None:
                 unit = step["unit"]
                 sid = sorted(s for s in m.world.contracts if s.startswith("%s/%s" % (unit, step["role"])))[-1]
                 m.n_probe += 1
